@@ -201,7 +201,19 @@ func runNetConn(rep *Report, nc ncCase, tl *timerLog, short *int64) {
 			}
 		case "write0", "write2":
 			p := mk(map[string]int{"write0": 0, "write2": 2}[st.Op] * u)
-			n, werr := conn.Write(p)
+			var n int
+			var werr error
+			ro, lent, lerr := ws.Lend(p) // write-protected for the duration of the call
+			if lerr != nil {
+				rep.miss("harness-mmap-failed", nc, lerr.Error())
+				return
+			}
+			if f := ws.WithFaults(func() { n, werr = conn.Write(lent) }); f != "" {
+				rep.miss("caller-buffer-written-during-call", nc, fmt.Sprintf("%s: %s", where, f))
+				ro.Release()
+				return
+			}
+			ro.Release()
 			switch st.Obs {
 			case "ok":
 				if werr != nil || n != len(p) {
